@@ -1,7 +1,8 @@
 package ptracer
 
 import (
-	"syscall"
+	"encoding/binary"
+	"unsafe"
 
 	unix "golang.org/x/sys/unix"
 )
@@ -48,7 +49,22 @@ func (c *Context) SetReturnValue(retval int) {
 
 func (c *Context) skipSyscall() error {
 	c.regs.Orig_rax = ^uint64(0) //-1
-	return syscall.PtraceSetRegs(c.Pid, &c.regs)
+	// write back the two registers that changed only: PTRACE_SETREGS of the whole set is refused (EIO)
+	// when the tracee holds a segment selector the kernel accepts from the program but not from a tracer
+	for _, r := range []struct {
+		off uintptr
+		val uint64
+	}{
+		{unsafe.Offsetof(c.regs.Orig_rax), c.regs.Orig_rax},
+		{unsafe.Offsetof(c.regs.Rax), c.regs.Rax},
+	} {
+		var b [8]byte
+		binary.LittleEndian.PutUint64(b[:], r.val)
+		if _, err := unix.PtracePokeUser(c.Pid, r.off, b[:]); err != nil {
+			return err
+		}
+	}
+	return nil
 }
 
 func getIovec(base *byte, l int) unix.Iovec {
